@@ -35,6 +35,98 @@ Proof. exact temporary_then_success. Qed.
 Print Assumptions C06_temporary_then_success.
 
 Theorem C06_message_preserved : forall s m,
-  (m = MPanic \/ ((s = SReader \/ s = SWriter) /\ (m = MError \/ m = MTemp))) -> msg_carried s m = true.
+  (m = MPanic \/ ((s = SReader \/ s = SWriter) /\ m = MError)) -> msg_carried s m = true.
 Proof. exact message_preserved. Qed.
 Print Assumptions C06_message_preserved.
+
+From Coq Require Import String.
+Require Import BS.Gen.C06_params BS.C06.Sites BS.C06.SitesProofs.
+
+(* ---- the failure-classification chain per call site x mode x executor (C06/Sites.v),
+   driven by the tables goparams reads from the source (Gen/C06_params.v; the C06_gen_* pins
+   are in C06/SitesProofs.v).  Two generated switches select between the former and the
+   current source: worker_downgrades_temporary (reviseSeverity, da9420f) and
+   write_combiner_recovers (writeCombiner's merge goroutine, 72da798). ---- *)
+
+Theorem C06_gen_switches_current_source :
+  worker_downgrades_temporary = true /\ write_combiner_recovers = true.
+Proof. exact C06_gen_switches_current. Qed.
+
+(* THE CURRENT SOURCE: unconditional *)
+Theorem C06_sites_persistent_is_error_current : forall c m x comb,
+  applicable c x comb = true -> expressible c m = true ->
+  exists b, surface c m x comb persistent =
+            (RErr b, if retried c m then Z.to_nat max_consecutive_lost else 1%nat).
+Proof. exact sites_persistent_is_error_current. Qed.
+Print Assumptions C06_sites_persistent_is_error_current.
+
+Theorem C06_sites_no_crash_current : forall c m x comb fails,
+  applicable c x comb = true -> expressible c m = true ->
+  is_bad (fst (surface c m x comb fails)) = false.
+Proof. exact sites_no_crash_current. Qed.
+Print Assumptions C06_sites_no_crash_current.
+
+Theorem C06_sites_message_preserved_current : forall c m x comb,
+  applicable c x comb = true ->
+  (m = MPanic \/ ((c = CReader \/ c = CWriter) /\ m = MError)) ->
+  surface c m x comb persistent = (RErr true, 1%nat).
+Proof. exact sites_message_preserved_current. Qed.
+Print Assumptions C06_sites_message_preserved_current.
+
+Theorem C06_sites_transient_recovers : forall c m x comb,
+  applicable c x comb = true -> expressible c m = true -> retried c m = true ->
+  surface c m x comb one_shot = (ROk, 2%nat).
+Proof. exact sites_transient_recovers. Qed.
+
+(* FOR EITHER VALUE OF THE SWITCHES, with the guard each switch removes *)
+Theorem C06_sites_persistent_is_error_with : forall dt wr c m x comb,
+  applicable c x comb = true -> expressible c m = true ->
+  known_unbounded dt c m x = false -> known_crash wr c = false ->
+  exists b, surface_with dt wr c m x comb persistent =
+            (RErr b, if retried c m then Z.to_nat max_consecutive_lost else 1%nat).
+Proof. exact sites_persistent_is_error_with. Qed.
+
+Theorem C06_sites_message_preserved : forall dt wr c m x comb,
+  applicable c x comb = true -> known_crash wr c = false ->
+  (m = MPanic \/ ((c = CReader \/ c = CWriter) /\ m = MError)) ->
+  surface_with dt wr c m x comb persistent = (RErr true, 1%nat).
+Proof. exact sites_message_preserved. Qed.
+
+Theorem C06_sites_no_crash_with : forall dt wr c m x comb fails,
+  applicable c x comb = true -> expressible c m = true -> known_crash wr c = false ->
+  is_bad (fst (surface_with dt wr c m x comb fails)) = false.
+Proof. exact sites_no_crash_with. Qed.
+
+Theorem C06_sites_temporary_then_success : forall dt wr c m x comb (n : nat),
+  applicable c x comb = true -> expressible c m = true -> retried c m = true ->
+  (Z.of_nat n < max_consecutive_lost) ->
+  surface_with dt wr c m x comb (fun k => Nat.ltb k n) = (ROk, S n).
+Proof. exact sites_temporary_then_success. Qed.
+
+(* THE FORMER SOURCE, as witnesses: without the downgrade RetryCall never returns, for every
+   patience; without the recover the commit-time merge kills the process *)
+Theorem C06_sites_temporary_unbounded_refuted : forall wr c m x comb,
+  applicable c x comb = true -> known_unbounded false c m x = true ->
+  (forall fuel k, bm_call false wr fuel c m x comb persistent k = (TRhang, (fuel + k)%nat))
+  /\ fst (surface_with false wr c m x comb persistent) = RHang.
+Proof. exact sites_temporary_unbounded_refuted. Qed.
+
+Theorem C06_sites_commit_merge_crash_refuted :
+  exists c m x comb, applicable c x comb = true /\ expressible c m = true
+    /\ (forall dt, fst (surface_with dt false c m x comb persistent) = RCrash).
+Proof. exact sites_commit_merge_crash_refuted. Qed.
+
+(* agreement with the coarse chain above *)
+Theorem C06_sites_refine_model : forall dt wr c m x comb,
+  applicable c x comb = true -> expressible c m = true ->
+  known_unbounded dt c m x = false -> known_crash wr c = false ->
+  fst (run_task (coarse c) m persistent) = RunErr
+  /\ (exists b, fst (surface_with dt wr c m x comb persistent) = RErr b)
+  /\ snd (surface_with dt wr c m x comb persistent) = snd (run_task (coarse c) m persistent).
+Proof. exact sites_refine_model. Qed.
+Print Assumptions C06_sites_refine_model.
+
+Theorem C06_sites_severity_agrees : forall c m,
+  expressible c m = true ->
+  (retried c m = true <-> surfaces (coarse c) m = SevTemporary).
+Proof. exact sites_severity_agrees. Qed.
